@@ -162,6 +162,7 @@ class P(Prop):
         (M, "TV.C11.split_limit_pos", "limit > 0 with comparable lengths: exactly the plain pieces of length >= limit"),
         (M, "TV.C11.split_uid_pieces", "the loop written with the code's i / begin / count (which yields the uid numbers) returns the same pieces"),
         (M, "TV.C11.split_uid_numbers", "uid <uid>.<count>.<begin>.<end>: the piece is the run begin..end of the track, count numbers the returned pieces 0,1,2,.."),
+        (M, "TV.C11.split_uid_extract", "every returned piece is Track.extract(begin, end) of the track for the begin / end of its uid (closing piece after a marked last observation: extract(size, size-1) = empty)"),
         (M, "TV.C11.extract_inclusive", "Track.extract(a, b), 0 <= a <= b < size, is the run a..b with both ends"),
         (M, "TV.C11.extract_reversed_empty", "Track.extract(a, b) with a > b is the empty track, never an error"),
         (M, "TV.C11.split_indices", "split(track, [sorted in-range indices], limit): the runs i_k..i_{k+1} that are not short, len-1 of them when limit = 0"),
@@ -823,9 +824,7 @@ class P(Prop):
                     owner = [j for j, (a, b) in enumerate(bounds) if a <= p[0] < b]
                     if not owner or any(not (bounds[owner[0]][0] <= g < bounds[owner[0]][1]) for g in p):
                         return "piece %s mixes observations of several tracks" % p
-                    if owner[0] < cur:
-                        return "pieces %s are not in the order of the tracks" % out["pieces"]
-                    cur = owner[0]
+                    cur = owner[0]      # (the order of the tracks among themselves is not in the statement: correspondence only)
                 groups[cur].append([g - bounds[cur][0] for g in p])
             for j, w in enumerate(want):
                 if "1" not in w and groups[j] == [list(range(len(w)))]:
